@@ -449,3 +449,19 @@ def flat_walk_bound(ctx, f: FuncInfo, depth: int = 2):
                     yield cal, n
                 nxt.append((cal, body))
         frontier = nxt
+
+
+def own_nodes(f: FuncInfo):
+    """ast nodes of f's own body, not descending into nested function / class definitions or lambdas."""
+    todo = list(f.node.body) if isinstance(f.node.body, list) else [f.node.body]
+    while todo:
+        n = todo.pop(0)
+        if isinstance(n, (ast.FunctionDef, ast.AsyncFunctionDef, ast.ClassDef, ast.Lambda)):
+            continue
+        yield n
+        for ch in ast.iter_child_nodes(n):
+            todo.append(ch)
+
+
+def own_returns(f: FuncInfo) -> list[ast.Return]:
+    return [n for n in own_nodes(f) if isinstance(n, ast.Return)]
